@@ -61,7 +61,8 @@ def cases(draw, tier):
                                {"http://www.w3.org/2001/XMLSchema#": "xsd", RDF: "rdf"}]))
     op = st.one_of(
         st.tuples(st.just("shex"), st.sampled_from(["ShEx", "ShEx", "Shacl"]), st.sampled_from(["string", "string", "file", "both"]),
-                  st.sampled_from([0, 0, 0.5, 1])),
+                  # thresholds that are different numbers although nearly equal, on both sides of the frequencies 1/2 and 1/3
+                  st.sampled_from([0, 0, 0, 0.5, 0.5, 1, 1, 0.5000000000001, 0.49999999999, 0.3333333333, 0.33333333334])),
         st.tuples(st.just("profile"), st.sampled_from(["string", "file", "both"])),
         st.tuples(st.just("new_shaper")),
         st.tuples(st.just("other_shaper"), st.sampled_from([1, 2, 3, 4]), st.sampled_from(["ratio", "mixed"])),
